@@ -281,6 +281,7 @@ class Model:
     def __init__(self):
         self.structs = {}
         self.bad_structs = {}
+        self.raw_types = {}   # (struct or variant name, field) -> Rust type text without lifetimes
         self.variants = []
 
     def lean_type(self, t, top=True):
@@ -292,7 +293,7 @@ class Model:
         elif k == "List":
             s = "List " + self.lean_type(t[1], False)
         elif k == "Struct":
-            s = " × ".join(self.lean_type(ft, False) for _, ft in self.structs[t[1]])
+            s = " × ".join(self.lean_type(ft, ft[0] != "Struct") for _, ft in self.structs[t[1]])
         else:
             raise GenError("internal: no Lean type for %r" % (t,))
         return s if top else "(" + s + ")"
@@ -439,10 +440,11 @@ class Parser:
                         self.i += 1
             name = self.ident("field name in %s" % owner)
             self.expect(":", "after field name")
-            ty, _ = self.parse_type(model)
+            ty, raw = self.parse_type(model)
             if any(name.text == f for f, _ in fields):
                 self.err("duplicate field %s in %s" % (name.text, owner), name)
             fields.append((name.text, ty))
+            model.raw_types[(owner.split()[-1], name.text)] = raw
             if not self.eat(","):
                 break
         self.expect("}", "closing %s" % owner)
@@ -959,6 +961,9 @@ class Translator:
     def tr(self, e, env, ctx):
         """-> (lean text, type, level)"""
         if isinstance(e, Var):
+            if e.name == ctx.fname and e.name not in env:
+                self.err(e.line, "direct use of the formatter '%s' (e.g. %s.write_str(..)) is not "
+                         "supported, only write!(%s, ..)" % (e.name, e.name, e.name))
             if e.name not in env:
                 self.err(e.line, "unknown name '%s' (not a field bound by the arm pattern, a let, "
                          "or a closure/if-let binding)" % e.name)
